@@ -168,7 +168,7 @@ Definition rec_of (s : state) (i f : nat) : nat := nth f (o_dir (getd s (me_of s
 (* instance i is a live instance object whose module engine is where the directory says *)
 Definition inst_ok (s : state) (i : nat) : bool :=
   alive s i && kind_eqb (o_kind (getd s i)) KInstance && memb (me_of s i) (o_vis (getd s i))
-  && is_none (o_owner (getd s (me_of s i))).
+  && is_none (o_owner (getd s (me_of s i))) && memb i (o_vis (getd s (me_of s i))).
 Definition rec_ok (s : state) (i f : nat) : bool :=
   inst_ok s i && (f <? length (o_dir (getd s (me_of s i)))) && memb (rec_of s i f) (o_vis (getd s (me_of s i))).
 (* holder t of instance i may be written by i: it is private to i or i is among its involving instances *)
@@ -280,8 +280,8 @@ Definition step (s : state) (o : op) : state :=
   | OCloseCache => if cached s then close_engine s else s
   | OCloseRuntime =>
       let s1 := close_instances s (o_reg (getd s RUNTIME)) in
-      let keep := filter (fun x => negb (kind_eqb (o_kind (getd s x)) KInstance)) (o_reg (getd s RUNTIME)) in
-      let s2 := upd_obj s1 RUNTIME (fun o => set_closed true (set_reg keep o)) in
+      let keep l := filter (fun x => negb (kind_eqb (o_kind (getd s x)) KInstance)) l in
+      let s2 := upd_obj s1 RUNTIME (fun o => set_closed true (set_reg (keep (o_reg o)) o)) in
       if cached s then s2 else close_engine s2
   | ODrop x => with_host s (remove_nat x (host s))
   | OGc => gc s
